@@ -9,10 +9,50 @@ import json
 import sys
 
 
-def replay_case(body):
+def replay_case(body, with_history=True):
+    """None if the case holds on the current tree, else a message.  A case that holds on its own but was
+    recorded together with the calls that preceded it in its worker process is replayed after those calls."""
     mod = importlib.import_module("mc.checks.%s" % body["property"].lower())
     fn = mod.REPLAY[body["kind"]]
-    return fn(body)
+    single = {k: v for k, v in body.items() if k != "preceding"}
+    msg = fn(single)
+    if msg is not None or not with_history or not body.get("preceding"):
+        return msg
+    # history-dependent?  replay the preceding calls in a FRESH interpreter, then the case
+    import subprocess, sys, json, tempfile, os
+    pre = body["preceding"]
+    best = None
+    for k in sorted({len(pre)} | {min(len(pre), 1 << j) for j in range(0, 12)}, reverse=True):
+        with tempfile.NamedTemporaryFile("w", suffix=".json", delete=False, dir=os.path.dirname(os.path.abspath(__file__)) + "/../build") as f:
+            json.dump(dict(single, preceding=pre[len(pre) - k:]), f)
+            tmp = f.name
+        try:
+            r = subprocess.run([sys.executable, "-m", "mc.replay", "--sequence", tmp], capture_output=True, text=True,
+                               cwd=os.path.dirname(os.path.dirname(os.path.abspath(__file__))))
+        finally:
+            os.remove(tmp)
+        if r.returncode == 1:
+            best = (k, r.stdout.strip().splitlines()[-1] if r.stdout.strip() else "")
+        elif best is not None or k == len(pre):
+            break
+    if best is None:
+        return None
+    return "[history-dependent: holds when called first in a fresh process, fails after the %d preceding calls of its work chunk (of %d recorded)] %s" % (
+        best[0], len(pre), best[1])
+
+
+def replay_sequence(body):
+    """Run the preceding cases and then the case itself, all in THIS (fresh) process."""
+    mod = importlib.import_module("mc.checks.%s" % body["property"].lower())
+    for c in body.get("preceding", []):
+        cc = dict(c)
+        cc.setdefault("property", body["property"])
+        try:
+            mod.REPLAY[cc["kind"]](cc)
+        except Exception:      # noqa: BLE001  (only the final case is judged)
+            pass
+    single = {k: v for k, v in body.items() if k != "preceding"}
+    return mod.REPLAY[body["kind"]](single)
 
 
 def replay_file(path):
@@ -23,6 +63,12 @@ def replay_file(path):
 
 def main(argv=None):
     argv = sys.argv[1:] if argv is None else argv
+    if argv and argv[0] == "--sequence":
+        with open(argv[1]) as f:
+            body = json.load(f)
+        msg = replay_sequence(body)
+        print("   " + str(msg)[:1500] if msg else "holds")
+        return 1 if msg else 0
     path = argv[0]
     with open(path) as f:
         body = json.load(f)
